@@ -75,32 +75,41 @@ var syntaxes = []string{"proto2", "proto3", "2023"}
 
 // forEachWS enumerates every workspace with at most maxDev deviations (distinct slots) from each
 // of the three bases, simplest first.
+// forEachWS enumerates the workspaces by increasing number of deviations (all bases with 0, then
+// 1, ... maxDev deviations), so that a run that reaches its internal deadline has still covered
+// every workspace below some bound, which it reports.
 func forEachWS(h *hx.H, maxDev int, f func(idx int64, ws *model.WS, ndev int)) {
-	for _, syn := range syntaxes {
-		cat := model.Catalogue(syn)
-		var rec func(from int, chosen []int)
-		rec = func(from int, chosen []int) {
-			idx, run := h.NextN()
-			if run {
-				f(idx, model.Apply(syn, cat, chosen...), len(chosen))
-			}
-			if len(chosen) == maxDev {
-				return
-			}
-			for i := from; i < len(cat); i++ {
-				clash := false
-				for _, c := range chosen {
-					if cat[c].Slot == cat[i].Slot {
-						clash = true
+	for depth := 0; depth <= maxDev; depth++ {
+		for _, syn := range syntaxes {
+			cat := model.Catalogue(syn)
+			var rec func(from int, chosen []int)
+			rec = func(from int, chosen []int) {
+				if len(chosen) == depth {
+					idx, run := h.NextN()
+					if run {
+						f(idx, model.Apply(syn, cat, chosen...), len(chosen))
 					}
+					return
 				}
-				if clash {
-					continue
+				for i := from; i < len(cat); i++ {
+					clash := false
+					for _, c := range chosen {
+						if cat[c].Slot == cat[i].Slot {
+							clash = true
+						}
+					}
+					if clash {
+						continue
+					}
+					rec(i+1, append(append([]int(nil), chosen...), i))
 				}
-				rec(i+1, append(append([]int(nil), chosen...), i))
 			}
+			rec(0, nil)
 		}
-		rec(0, nil)
+		if h.Expired() {
+			h.Cap(fmt.Sprintf("deadline reached while enumerating workspaces with %d deviations; every workspace with fewer deviations was covered", depth))
+			return
+		}
 	}
 }
 
